@@ -58,34 +58,77 @@ func c06Allowed(in, eg topology.LinkType, segChange bool) bool {
 }
 
 type c06Scn struct {
-	name  string
-	lens  []int
-	peer  bool
-	cur   int  // global index of the current hop
-	xover bool // current hop is the last of its segment, another segment follows, not a peering hop: segment change
-	after bool // current hop is the first of a later segment (reached after a segment change done by the ingress router)
+	name string
+	lens []int
+	cur  int // global index of the current hop
+	// derived by classify from the Peer flags of the info fields:
+	pm        []bool // Peer flag of each info field (not covered by any MAC: a sender sets each of them freely)
+	peerHop   bool   // the current hop is a peering hop: its OWN info field has the Peer flag and it is the last hop of segment 0 / first of segment 1 of a two-segment path
+	xover     bool   // current hop is the last of its segment, another segment follows, not a peering hop: segment change
+	after     bool   // current hop is the first of a later segment (reached after a segment change done by the ingress router)
+	malformed bool   // a one-hop segment without the Peer flag on the current info field, or the Peer flag on a path that has not exactly two segments
 }
 
 func c06Scenarios() []c06Scn {
 	return []c06Scn{
-		{name: "seg3@1", lens: []int{3}, cur: 1},
-		{name: "seg4@2", lens: []int{4}, cur: 2},
-		{name: "seg2+3@3", lens: []int{2, 3}, cur: 3},
-		{name: "seg2+3+2@3", lens: []int{2, 3, 2}, cur: 3},
-		{name: "seg3@0", lens: []int{3}, cur: 0},
-		{name: "seg2+2@0", lens: []int{2, 2}, cur: 0},
-		{name: "xover2+2@1", lens: []int{2, 2}, cur: 1, xover: true},
-		{name: "xover3+2@2", lens: []int{3, 2}, cur: 2, xover: true},
-		{name: "xover2+2+2@1", lens: []int{2, 2, 2}, cur: 1, xover: true},
-		{name: "xover2+2+2@3", lens: []int{2, 2, 2}, cur: 3, xover: true},
-		{name: "after2+2@2", lens: []int{2, 2}, cur: 2, after: true},
-		{name: "after2+2+2@4", lens: []int{2, 2, 2}, cur: 4, after: true},
-		{name: "peer2+2@1", lens: []int{2, 2}, cur: 1, peer: true},
-		{name: "peer2+2@2", lens: []int{2, 2}, cur: 2, peer: true},
-		{name: "peer2+1@1", lens: []int{2, 1}, cur: 1, peer: true},
-		{name: "peer1+2@0", lens: []int{1, 2}, cur: 0, peer: true},
-		{name: "peer1+2@1", lens: []int{1, 2}, cur: 1, peer: true},
+		{name: "3@1", lens: []int{3}, cur: 1},
+		{name: "4@2", lens: []int{4}, cur: 2},
+		{name: "2+3@3", lens: []int{2, 3}, cur: 3},
+		{name: "2+3+2@3", lens: []int{2, 3, 2}, cur: 3},
+		{name: "3@0", lens: []int{3}, cur: 0},
+		{name: "2+2@0", lens: []int{2, 2}, cur: 0},
+		{name: "2+2@1", lens: []int{2, 2}, cur: 1},
+		{name: "3+2@2", lens: []int{3, 2}, cur: 2},
+		{name: "2+2+2@1", lens: []int{2, 2, 2}, cur: 1},
+		{name: "2+2+2@3", lens: []int{2, 2, 2}, cur: 3},
+		{name: "2+2@2", lens: []int{2, 2}, cur: 2},
+		{name: "2+2+2@4", lens: []int{2, 2, 2}, cur: 4},
+		{name: "2+1@1", lens: []int{2, 1}, cur: 1},
+		{name: "1+2@0", lens: []int{1, 2}, cur: 0},
+		{name: "1+2@1", lens: []int{1, 2}, cur: 1},
 	}
+}
+
+// classify derives the role of the current hop from the Peer flags pm (scion-header.rst: the P flag of an info field
+// marks ITS segment as part of a peering path; what the flags of the other segments say does not change what the hop is).
+func (sc c06Scn) classify(pm []bool) c06Scn {
+	s, i, g := 0, sc.cur, 0
+	for si, l := range sc.lens {
+		if sc.cur < g+l {
+			s, i = si, sc.cur-g
+			break
+		}
+		g += l
+	}
+	curPeer := pm[s]
+	sc.pm = pm
+	sc.peerHop = curPeer && len(sc.lens) == 2 && (sc.cur == sc.lens[0]-1 || sc.cur == sc.lens[0])
+	sc.xover = i == sc.lens[s]-1 && s < len(sc.lens)-1 && !sc.peerHop
+	sc.after = i == 0 && s > 0 && !sc.peerHop
+	singleton := false
+	for _, l := range sc.lens {
+		singleton = singleton || l == 1
+	}
+	sc.malformed = (singleton && !curPeer) || (curPeer && len(sc.lens) != 2)
+	return sc
+}
+
+func (sc c06Scn) role() string {
+	r := "in-segment"
+	switch {
+	case sc.peerHop:
+		r = "peering-hop"
+	case sc.xover:
+		r = "segment-change"
+	case sc.after:
+		r = "first-hop-after-segment-change"
+	case sc.cur == 0:
+		r = "first-hop"
+	}
+	if sc.malformed {
+		r += "(malformed path)"
+	}
+	return r
 }
 
 const (
@@ -119,7 +162,7 @@ func c06Packet(sc c06Scn, dirs []bool, inIf, egIf uint16, arr int, key []byte, t
 	first := make([]int, len(sc.lens))
 	for si, l := range sc.lens {
 		first[si] = g
-		sg := rtr.Seg{ConsDir: dirs[si], Peer: sc.peer, SegID: uint16(0x6100 + 0x123*si), TS: ts}
+		sg := rtr.Seg{ConsDir: dirs[si], Peer: sc.pm[si], SegID: uint16(0x6100 + 0x123*si), TS: ts}
 		for k := 0; k < l; k++ {
 			sg.Hops = append(sg.Hops, rtr.Hop{In: uint16(800 + 2*g), Eg: uint16(801 + 2*g), Exp: 63,
 				Mac: [6]byte{0xc6, byte(g), 0x5a, byte(5 * g), 0xa5, 0x3c}})
@@ -147,7 +190,7 @@ func c06Packet(sc c06Scn, dirs []bool, inIf, egIf uint16, arr int, key []byte, t
 	sigma := uint16(0x1c06)
 	var v []rtr.VHop
 	errHop, errInf := sc.cur, s
-	peerHop := sc.peer && (sc.cur == sc.lens[0]-1 || sc.cur == sc.lens[0])
+	peerHop := sc.peerHop
 	switch {
 	case sc.xover:
 		m1 := set(sc.cur, inIf, 0, sigma, true)
@@ -217,7 +260,6 @@ func TestC06(t *testing.T) {
 		sampled := atomic.Int64{}
 		mc.ParallelFor(len(jobs), func(ji int) {
 			j := jobs[ji]
-			sc := j.sc
 			cfg := c06Cfg(j.key)
 			cfg.ReuseLocal = j.reuse
 			rt := rtr.MustBuild(cfg)
@@ -237,187 +279,229 @@ func TestC06(t *testing.T) {
 				lt  topology.LinkType
 				in  rtr.Ingress
 			}
-			var ins []ingress
-			if sc.cur == 0 {
-				ins = append(ins, ingress{c06ArrHost, 0, topology.Unset, rtr.FromHost})
-			} else {
-				for _, lt := range c06LTs {
-					if !sc.after {
-						ins = append(ins, ingress{c06ArrExt, c06Own(lt, 0), lt, rtr.FromExt(c06Own(lt, 0))})
+			// the Peer flag of every info field independently (it is not covered by any MAC)
+			for pmBits := 0; pmBits < 1<<len(j.sc.lens); pmBits++ {
+				pm := make([]bool, len(j.sc.lens))
+				uniform := true
+				for i := range pm {
+					pm[i] = pmBits>>i&1 == 1
+					uniform = uniform && pm[i] == pm[0]
+				}
+				sc := j.sc.classify(pm)
+				var ins []ingress
+				if sc.cur == 0 {
+					ins = append(ins, ingress{c06ArrHost, 0, topology.Unset, rtr.FromHost})
+				} else {
+					for _, lt := range c06LTs {
+						if !sc.after {
+							ins = append(ins, ingress{c06ArrExt, c06Own(lt, 0), lt, rtr.FromExt(c06Own(lt, 0))})
+						}
+						ins = append(ins, ingress{c06ArrSib, c06Sib(lt), lt, rtr.FromSibling(c06Sib(lt))})
 					}
-					ins = append(ins, ingress{c06ArrSib, c06Sib(lt), lt, rtr.FromSibling(c06Sib(lt))})
 				}
-			}
-			type egress struct {
-				kind int
-				id   uint16
-				lt   topology.LinkType
-			}
-			var egs []egress
-			for _, lt := range c06LTs {
-				egs = append(egs, egress{c06EgOwn, c06Own(lt, 1), lt}, egress{c06EgSib, c06Sib(lt), lt})
-			}
-			egs = append(egs, egress{c06EgZero, 0, topology.Unset}, egress{c06EgUnknown, 999, topology.Unset})
-			for dm := 0; dm < 1<<len(sc.lens); dm++ {
-				dirs := make([]bool, len(sc.lens))
-				for i := range dirs {
-					dirs[i] = dm>>i&1 == 1
+				type egress struct {
+					kind int
+					id   uint16
+					lt   topology.LinkType
 				}
-				for _, in := range ins {
-					for _, eg := range egs {
-						if eg.id == in.id && eg.id != 0 {
-							continue
-						}
-						p, v, errHop, errInf := c06Packet(sc, dirs, in.id, eg.id, in.arr, j.key, ts)
-						if j.pt == 1 {
-							cc := rtr.Case{Pkt: p, V: v}
-							p = cc.WithEPIC(j.key, epicTS)
-						}
-						raw, lay := p.Serialize()
-						// history dimension: fresh processors, and directly after each kind of predecessor packet
-						res, hdiff, hres := hp.ProcessHAll(raw, in.in)
-						key := fmt.Sprintf("%s|d%b|%s:%s%d|%s:%s%d|pt%d|k%x", sc.name, dm, c06ArrNames[in.arr], c06LTName[in.lt], in.id,
-							c06EgName[eg.kind], c06LTName[eg.lt], eg.id, j.pt, j.key[0]) + map[bool]string{true: "|connected-sibling-links"}[j.reuse]
-						r.Case(key, true)
-						if sampled.Add(1)%997 == 1 {
-							r.Sample(map[string]any{"case": key, "packet": fmt.Sprintf("%x", raw), "disp": dispName(res.Fast.Disp)})
-						}
-						histories.Add(int64(hp.Histories()))
-						// judge the result on fresh processors and, if a predecessor changes the result, that result too
-						// (finding keys of the latter carry the suffix "/after-other-packet")
-						type judged struct {
-							res  rtr.Result
-							hist string
-						}
-						todo := []judged{{res, ""}}
-						if hdiff != "" {
-							r.Violation("result-depends-on-processor-history:"+map[bool]string{true: "segment-change", false: "no-segment-change"}[sc.xover],
-								map[string]any{"case": key, "difference": hdiff, "packet": fmt.Sprintf("%x", raw), "ingress": fmt.Sprint(in.in),
-									"fresh": dispName(res.Fast.Disp), "after": dispName(hres.Fast.Disp)})
-							todo = append(todo, judged{hres, hdiff})
-						}
-						for _, jd := range todo {
-							res, hsuffix := jd.res, ""
-							if jd.hist != "" {
-								hsuffix = "/after-other-packet"
-							}
-							viol := func(k string, d any) { r.Violation(k+hsuffix, d) }
-							outc := func(o string) {
-								if jd.hist == "" {
-									r.Outcome(o)
-								}
-							}
-							detail := func() map[string]any {
-								return map[string]any{"history": jd.hist, "case": key, "scenario": sc.name, "segment_change": sc.xover, "arrival": c06ArrNames[in.arr],
-									"ingress_if": in.id, "ingress_lt": c06LTName[in.lt], "egress_if": eg.id, "egress_kind": c06EgName[eg.kind],
-									"egress_lt": c06LTName[eg.lt], "disp": dispName(res.Fast.Disp), "router_egress": res.Fast.Egress,
-									"sp":     fmt.Sprintf("type=%d code=%d ptr=%d", res.Fast.SPType, res.Fast.SPCode, res.Fast.SPPointer),
-									"packet": fmt.Sprintf("%x", raw)}
-							}
-							if res.Panic != nil {
-								d := detail()
-								d["panic"] = fmt.Sprint(res.Panic)
-								viol("panic:"+c06ArrNames[in.arr]+":egress-"+c06EgName[eg.kind], d)
-								rt.VerifStart()
+				var egs []egress
+				for _, lt := range c06LTs {
+					egs = append(egs, egress{c06EgOwn, c06Own(lt, 1), lt}, egress{c06EgSib, c06Sib(lt), lt})
+				}
+				egs = append(egs, egress{c06EgZero, 0, topology.Unset}, egress{c06EgUnknown, 999, topology.Unset})
+				for dm := 0; dm < 1<<len(sc.lens); dm++ {
+					dirs := make([]bool, len(sc.lens))
+					for i := range dirs {
+						dirs[i] = dm>>i&1 == 1
+					}
+					for _, in := range ins {
+						for _, eg := range egs {
+							if eg.id == in.id && eg.id != 0 {
 								continue
 							}
-							fwd := res.Fast.Disp == router.VerifForward
-							// ---- specification ----
-							var mustReject bool
-							var class string
-							wantCodes := []int{}
-							wantPtrs := []int{}
-							unknownCode := c06CodeUnknownHFIn // the travel egress is the ConsIngress field against construction direction
-							if p.Segs[errInf].ConsDir {
-								unknownCode = c06CodeUnknownHFEg
+							p, v, errHop, errInf := c06Packet(sc, dirs, in.id, eg.id, in.arr, j.key, ts)
+							if j.pt == 1 {
+								cc := rtr.Case{Pkt: p, V: v}
+								p = cc.WithEPIC(j.key, epicTS)
 							}
-							switch {
-							case in.arr != c06ArrExt && eg.kind != c06EgOwn:
-								// "a packet coming from inside the AS must leave through an external interface of this router"
-								mustReject, class = true, "from-inside:egress-"+c06EgName[eg.kind]
-								wantCodes = []int{unknownCode, c06CodeInvalidPath, c06CodeInvalidSegChg}
-								wantPtrs = []int{lay.HopOff[errHop], lay.InfoOff[errInf]}
-							case in.arr != c06ArrExt:
-								// leaves through an own interface; the link-type pair was the ingress router's business
-							case eg.kind == c06EgUnknown:
-								mustReject, class = true, "ext:egress-unknown"
-								wantCodes, wantPtrs = []int{unknownCode}, []int{lay.HopOff[errHop]}
-							default:
-								if !c06Allowed(in.lt, eg.lt, sc.xover) {
-									mustReject = true
-									if sc.xover {
-										class = "segment-change:" + c06LTName[in.lt] + "-" + c06LTName[eg.lt]
-										wantCodes, wantPtrs = []int{c06CodeInvalidSegChg}, []int{lay.InfoOff[errInf], lay.InfoOff[errInf-1]}
-									} else {
-										class = "same-segment:" + c06LTName[in.lt] + "-" + c06LTName[eg.lt]
-										wantCodes, wantPtrs = []int{c06CodeInvalidPath}, []int{lay.HopOff[errHop]}
-									}
-									if eg.kind == c06EgZero {
-										class += "(egress 0)"
-									}
-								}
-							}
-							if mustReject {
-								if fwd {
-									viol("forwarded:"+class, detail())
-									continue
-								}
-								if res.Fast.Disp != router.VerifSlowPath || res.Fast.SPType != scmpParamProblem {
-									viol("not-parameter-problem:"+class, detail())
-									continue
-								}
-								okc, okp := false, false
-								for _, c := range wantCodes {
-									okc = okc || c == res.Fast.SPCode
-								}
-								for _, c := range wantPtrs {
-									okp = okp || c == int(res.Fast.SPPointer)
-								}
-								if !okc || !okp {
-									d := detail()
-									d["want"] = fmt.Sprintf("code in %v, pointer in %v", wantCodes, wantPtrs)
-									viol("scmp-code-or-pointer:"+class, d)
-									continue
-								}
-								if res.SlowErr != nil || res.SlowOut == nil {
-									d := detail()
-									d["slow_err"] = fmt.Sprint(res.SlowErr)
-									viol("scmp-not-produced:"+class, d)
-									continue
-								}
-								ty, co, pr, ok := c05Scmp(res.SlowOut)
-								if !ok || ty != scmpParamProblem || co != res.Fast.SPCode || pr != int(res.Fast.SPPointer) {
-									d := detail()
-									d["scmp_packet"] = fmt.Sprintf("%x", res.SlowOut)
-									viol("scmp-packet-mismatch:"+class, d)
-									continue
-								}
-								outc(fmt.Sprintf("rejected-code%d", co))
-								continue
-							}
-							// allowed by the statement
-							expectFwd := in.arr == c06ArrExt || in.arr == c06ArrHost ||
-								(in.arr == c06ArrSib && !sc.xover) // a segment change is done by the ingress router, never seen from a sibling
-							if !fwd {
-								switch {
-								case expectFwd && jd.hist != "":
-									// the same packet is forwarded by fresh processors: the refusal is the history's doing
-									viol("allowed-combination-refused", detail())
-								case expectFwd:
-									harness("allowed combination not forwarded: %v", detail())
-								default:
-									outc("from-sibling-at-segment-change-" + dispName(res.Fast.Disp))
-								}
-								continue
-							}
-							if res.Fast.Egress != eg.id {
-								viol("forwarded-to-other-interface", detail())
-								continue
-							}
-							if in.arr == c06ArrSib && !c06Allowed(in.lt, eg.lt, sc.xover) {
-								outc("forwarded-from-sibling-unjudged-pair")
+							raw, lay := p.Serialize()
+							// history dimension: fresh processors, and directly after each kind of predecessor packet
+							// (on the paths with uniform Peer flags; mixed flags: fresh processors only)
+							var res, hres rtr.Result
+							hdiff := ""
+							if uniform {
+								res, hdiff, hres = hp.ProcessHAll(raw, in.in)
+								histories.Add(int64(hp.Histories()))
 							} else {
-								outc("forwarded-" + c06ArrNames[in.arr] + "-to-" + c06EgName[eg.kind])
+								rt.VerifStart()
+								res = hp.Process(raw, in.in)
+								histories.Add(1)
+							}
+							key := fmt.Sprintf("%s|P%0*b|d%b|%s:%s%d|%s:%s%d|pt%d|k%x", sc.name, len(pm), pmBits, dm, c06ArrNames[in.arr], c06LTName[in.lt], in.id,
+								c06EgName[eg.kind], c06LTName[eg.lt], eg.id, j.pt, j.key[0]) + map[bool]string{true: "|connected-sibling-links"}[j.reuse]
+							r.Case(key, true)
+							if sampled.Add(1)%997 == 1 {
+								r.Sample(map[string]any{"case": key, "packet": fmt.Sprintf("%x", raw), "disp": dispName(res.Fast.Disp)})
+							}
+							// judge the result on fresh processors and, if a predecessor changes the result, that result too
+							// (finding keys of the latter carry the suffix "/after-other-packet")
+							type judged struct {
+								res  rtr.Result
+								hist string
+							}
+							todo := []judged{{res, ""}}
+							if hdiff != "" {
+								r.Violation("result-depends-on-processor-history:"+map[bool]string{true: "segment-change", false: "no-segment-change"}[sc.xover],
+									map[string]any{"case": key, "difference": hdiff, "packet": fmt.Sprintf("%x", raw), "ingress": fmt.Sprint(in.in),
+										"fresh": dispName(res.Fast.Disp), "after": dispName(hres.Fast.Disp)})
+								todo = append(todo, judged{hres, hdiff})
+							}
+							for _, jd := range todo {
+								res, hsuffix := jd.res, ""
+								if jd.hist != "" {
+									hsuffix = "/after-other-packet"
+								}
+								viol := func(k string, d any) { r.Violation(k+hsuffix, d) }
+								outc := func(o string) {
+									if jd.hist == "" {
+										r.Outcome(o)
+									}
+								}
+								detail := func() map[string]any {
+									return map[string]any{"history": jd.hist, "case": key, "scenario": sc.name, "peer_flags": fmt.Sprint(pm), "role": sc.role(), "segment_change": sc.xover, "arrival": c06ArrNames[in.arr],
+										"ingress_if": in.id, "ingress_lt": c06LTName[in.lt], "egress_if": eg.id, "egress_kind": c06EgName[eg.kind],
+										"egress_lt": c06LTName[eg.lt], "disp": dispName(res.Fast.Disp), "router_egress": res.Fast.Egress,
+										"sp":     fmt.Sprintf("type=%d code=%d ptr=%d", res.Fast.SPType, res.Fast.SPCode, res.Fast.SPPointer),
+										"packet": fmt.Sprintf("%x", raw)}
+								}
+								if res.Panic != nil {
+									d := detail()
+									d["panic"] = fmt.Sprint(res.Panic)
+									viol("panic:"+c06ArrNames[in.arr]+":egress-"+c06EgName[eg.kind], d)
+									rt.VerifStart()
+									continue
+								}
+								fwd := res.Fast.Disp == router.VerifForward
+								// ---- specification ----
+								var mustReject bool
+								var class string
+								wantCodes := []int{}
+								wantPtrs := []int{}
+								unknownCode := c06CodeUnknownHFIn // the travel egress is the ConsIngress field against construction direction
+								if p.Segs[errInf].ConsDir {
+									unknownCode = c06CodeUnknownHFEg
+								}
+								switch {
+								case in.arr != c06ArrExt && eg.kind != c06EgOwn:
+									// "a packet coming from inside the AS must leave through an external interface of this router"
+									mustReject, class = true, "from-inside:egress-"+c06EgName[eg.kind]
+									wantCodes = []int{unknownCode, c06CodeInvalidPath, c06CodeInvalidSegChg}
+									wantPtrs = []int{lay.HopOff[errHop], lay.InfoOff[errInf]}
+								case in.arr != c06ArrExt:
+									// leaves through an own interface; the link-type pair was the ingress router's business
+								case eg.kind == c06EgUnknown:
+									mustReject, class = true, "ext:egress-unknown"
+									wantCodes, wantPtrs = []int{unknownCode}, []int{lay.HopOff[errHop]}
+								default:
+									if !c06Allowed(in.lt, eg.lt, sc.xover) {
+										mustReject = true
+										if sc.xover {
+											class = "segment-change:" + c06LTName[in.lt] + "-" + c06LTName[eg.lt]
+											wantCodes, wantPtrs = []int{c06CodeInvalidSegChg}, []int{lay.InfoOff[errInf], lay.InfoOff[errInf-1]}
+										} else {
+											class = "same-segment:" + c06LTName[in.lt] + "-" + c06LTName[eg.lt]
+											wantCodes, wantPtrs = []int{c06CodeInvalidPath}, []int{lay.HopOff[errHop]}
+										}
+										if eg.kind == c06EgZero {
+											class += "(egress 0)"
+										}
+									}
+								}
+								if mustReject {
+									if fwd {
+										viol("forwarded:"+class, detail())
+										continue
+									}
+									if sc.malformed {
+										// the path itself is unusable (Peer flags / one-hop segments): any refusal will do
+										outc("malformed-path-refused-" + dispName(res.Fast.Disp))
+										continue
+									}
+									if !uniform && res.Fast.Disp == router.VerifDiscard {
+										// Peer flags that contradict each other: the path is not one a sender may build; a silent drop will do
+										outc("mixed-peer-flags-refused-discard")
+										continue
+									}
+									if res.Fast.Disp != router.VerifSlowPath || res.Fast.SPType != scmpParamProblem {
+										viol("not-parameter-problem:"+class, detail())
+										continue
+									}
+									okc, okp := false, false
+									for _, c := range wantCodes {
+										okc = okc || c == res.Fast.SPCode
+									}
+									for _, c := range wantPtrs {
+										okp = okp || c == int(res.Fast.SPPointer)
+									}
+									if !okc || !okp {
+										d := detail()
+										d["want"] = fmt.Sprintf("code in %v, pointer in %v", wantCodes, wantPtrs)
+										viol("scmp-code-or-pointer:"+class, d)
+										continue
+									}
+									if !uniform && res.SlowErr != nil {
+										// the fast path refused with the right code; the slow path re-reads the (contradictory) Peer flags and may
+										// find the path unanswerable: counted, not judged
+										outc(fmt.Sprintf("mixed-peer-flags-rejected-code%d-scmp-not-sent", res.Fast.SPCode))
+										continue
+									}
+									if res.SlowErr != nil || res.SlowOut == nil {
+										d := detail()
+										d["slow_err"] = fmt.Sprint(res.SlowErr)
+										viol("scmp-not-produced:"+class, d)
+										continue
+									}
+									ty, co, pr, ok := c05Scmp(res.SlowOut)
+									if !ok || ty != scmpParamProblem || co != res.Fast.SPCode || pr != int(res.Fast.SPPointer) {
+										d := detail()
+										d["scmp_packet"] = fmt.Sprintf("%x", res.SlowOut)
+										viol("scmp-packet-mismatch:"+class, d)
+										continue
+									}
+									outc(fmt.Sprintf("rejected-code%d", co))
+									continue
+								}
+								// allowed by the statement
+								expectFwd := in.arr == c06ArrExt || in.arr == c06ArrHost ||
+									(in.arr == c06ArrSib && !sc.xover) // a segment change is done by the ingress router, never seen from a sibling
+								if sc.malformed {
+									outc("malformed-path-" + dispName(res.Fast.Disp))
+									if fwd && res.Fast.Egress != eg.id {
+										viol("forwarded-to-other-interface", detail())
+									}
+									continue
+								}
+								if !fwd {
+									switch {
+									case expectFwd && jd.hist != "":
+										// the same packet is forwarded by fresh processors: the refusal is the history's doing
+										viol("allowed-combination-refused", detail())
+									case expectFwd:
+										harness("allowed combination not forwarded: %v", detail())
+									default:
+										outc("from-sibling-at-segment-change-" + dispName(res.Fast.Disp))
+									}
+									continue
+								}
+								if res.Fast.Egress != eg.id {
+									viol("forwarded-to-other-interface", detail())
+									continue
+								}
+								if in.arr == c06ArrSib && !c06Allowed(in.lt, eg.lt, sc.xover) {
+									outc("forwarded-from-sibling-unjudged-pair")
+								} else {
+									outc("forwarded-" + c06ArrNames[in.arr] + "-to-" + c06EgName[eg.kind])
+								}
 							}
 						}
 					}
